@@ -17,12 +17,15 @@ SIGMA = PUNCT + list('axeu') + list('018') + list('$_') + ["'", '"', '\\'] + [
     '\U0001f600',  # astral, not a letter
     '\ud800',      # lone surrogate
     '#',
+    # characters Python (str.splitlines, \s) treats as line boundaries or
+    # white space although ES5 does not, or only as white space
+    '\x0b', '\x0c', '\x1c', '\x85',
 ]
 CORE16 = list('a1e.+-/*=<\'"\\') + [' ', '\n', '\r']
 CORE8 = list('a1./*\'\\') + ['\n']
 CORRUPT = list('a1.+/*=\'"\\(){};') + ['\n', ' ', '#', '\u2028', '\x00']
 
-NAMES = {' ': 'SP', '\t': 'TAB', '\xa0': 'NBSP', '\n': 'LF', '\r': 'CR',
+NAMES = {'\x0b': 'VT', '\x0c': 'FF', '\x1c': 'FS', '\x85': 'NEL', ' ': 'SP', '\t': 'TAB', '\xa0': 'NBSP', '\n': 'LF', '\r': 'CR',
          '\u2028': 'LS', '\u2029': 'PS', '\xe9': 'LETTER', '\u0301': 'MARK',
          '\u20ac': 'OTHER', '\x00': 'NUL', '\U0001f600': 'ASTRAL',
          '\ud800': 'SURROGATE', "'": 'SQ', '"': 'DQ', '\\': 'BS'}
@@ -46,23 +49,70 @@ def strings(alphabet, maxlen):
             yield ''.join(t)
 
 
-def spaces(tier):
-    """[(name, alphabet, maxlen)]"""
+MID24 = list('a1e.+-/*=<>!&|(){};,\'"\\') + [' ', '\n']
+
+
+def spaces(tier, purpose='lex'):
+    """[(name, alphabet, maxlen)]; `purpose` 'parse' keeps the spaces that
+    are run through the (four times dearer) parser smaller"""
     if tier == 'quick':
-        return [('all-49', SIGMA, 3), ('core-16', CORE16, 4),
+        if purpose == 'parse':
+            return [('all', SIGMA, 2), ('mid-24', MID24, 3),
+                    ('core-16', CORE16, 4), ('core-8', CORE8, 5)]
+        return [('all', SIGMA, 3), ('core-16', CORE16, 4),
                 ('core-8', CORE8, 5)]
-    return [('all-49', SIGMA, 4), ('core-16', CORE16, 5),
-            ('core-8', CORE8, 7)]
+    if purpose == 'parse':
+        return [('all', SIGMA, 3), ('mid-24', MID24, 4),
+                ('core-16', CORE16, 5), ('core-8', CORE8, 6)]
+    return [('all', SIGMA, 4), ('core-16', CORE16, 5), ('core-8', CORE8, 7)]
 
 
-def all_strings(tier):
-    seen = set()
+def owner(s, sp):
+    """index of the first space containing s (spaces overlap; every string
+    is enumerated by exactly one of them)"""
+    for j, (name, alpha, n) in enumerate(sp):
+        if len(s) <= n and all(c in alpha for c in s):
+            return j
+    return None
+
+
+def string_tasks(tier, purpose='lex'):
+    """
+    Work units for a memory-bounded exhaustive enumeration: (space index,
+    prefix).  Expanding every task with `strings_of_task` yields every string
+    of the union of the spaces exactly once.
+    """
+    sp = spaces(tier, purpose)
+    tasks = []
+    for j, (name, alpha, n) in enumerate(sp):
+        plen = 1 if n <= 3 else 2
+        for k in range(1, plen):
+            for t in itertools.product(alpha, repeat=k):
+                tasks.append((j, ''.join(t), True))     # the short strings
+        for t in itertools.product(alpha, repeat=plen):
+            tasks.append((j, ''.join(t), False))
+    return sp, tasks
+
+
+def strings_of_task(sp, task):
+    j, prefix, exact = task
+    name, alpha, n = sp[j]
+    if exact:
+        if owner(prefix, sp) == j:
+            yield prefix
+        return
+    for k in range(0, n - len(prefix) + 1):
+        for t in itertools.product(alpha, repeat=k):
+            s = prefix + ''.join(t)
+            if owner(s, sp) == j:
+                yield s
+
+
+def all_strings(tier, purpose='lex'):
+    sp, tasks = string_tasks(tier, purpose)
     out = []
-    for name, alpha, n in spaces(tier):
-        for s in strings(alpha, n):
-            if s not in seen:
-                seen.add(s)
-                out.append(s)
+    for t in tasks:
+        out.extend(strings_of_task(sp, t))
     return out
 
 
@@ -71,9 +121,63 @@ LEXEMES = [
     'a', 'if', 'ifx', 'in', 'inx', 'get', 'this', '1', '1.5', '.5', '1e3',
     '0x1f', "'s'", '"s"', "'a\\\nb'", "'a\\\r\nb'", "'a\\\u2028b'", '/r/g',
     '/*c*/', '/*\n*/', '/*\r\n\r*/', '//c', '//c\n', '\n', '\r\n', '\r',
+    '/*\x0c*/', '/*\x85\x1c*/', '/*\u2028*/', "'a\\\u2029b'", "'a\x0bb'",
+    '//c\x0c\n', '\x0c', '\x0b', '\x85',
     '\u2028', '\u2029', ' ', '\t', '\xa0', '\ufeff', '\u3000',
     '{', '}', '(', ')', '[', ']', ';', ',', '.', '<', '>', '<=', '>=', '==',
     '!=', '===', '!==', '+', '-', '*', '%', '++', '--', '<<', '>>', '>>>',
     '&', '|', '^', '!', '~', '&&', '||', '?', ':', '=', '+=', '-=', '*=',
     '%=', '<<=', '>>=', '>>>=', '&=', '|=', '^=', '/', '/=',
 ]
+
+
+def case_related_characters():
+    """
+    {character: [ascii strings]} for every non-ASCII letter that Unicode case
+    mapping / case folding / compatibility normalisation relates to a string
+    of ASCII letters (dotless i, long s, ligatures, modifier and mathematical
+    letters, full-width forms ...): the cell of the character partition that
+    matters for "an identifier is a keyword only on exact match".
+    """
+    import unicodedata
+    rel = {}
+    for cp in range(0x80, 0x110000):
+        if 0xD800 <= cp <= 0xDFFF:
+            continue
+        c = chr(cp)
+        if unicodedata.category(c) not in ('Lu', 'Ll', 'Lt', 'Lm', 'Lo',
+                                           'Nl'):
+            continue
+        forms = set()
+        for f in (c.upper(), c.lower(), c.casefold(),
+                  unicodedata.normalize('NFKC', c),
+                  unicodedata.normalize('NFKD', c)):
+            if f and all(ord(x) < 128 for x in f) and f.isalpha():
+                forms.add(f.lower())
+        if forms:
+            rel[c] = sorted(forms)
+    return rel
+
+
+def confusable_words(words):
+    """every word obtained from a reserved word by replacing one occurrence
+    of an ASCII letter string by a character related to it (never equal to
+    the reserved word itself)"""
+    rel = case_related_characters()
+    out = set()
+    for w in sorted(words):
+        for c in sorted(rel):
+            for f in rel[c]:
+                start = 0
+                while True:
+                    i = w.find(f, start)
+                    if i < 0:
+                        break
+                    out.add(w[:i] + c + w[i + len(f):])
+                    start = i + 1
+        # plain case variants
+        out.add(w.upper())
+        out.add(w.capitalize())
+        out.add(w + 'x')
+        out.add('x' + w)
+    return sorted(out - set(words))
